@@ -413,6 +413,11 @@ var seedQueries = []string{
 	`subscription S { obj { int objNN { intNN } } }`,
 	`{ req(x: 1, y: [{b: "s"}]) r2: req(x: 2, y: []) }`,
 	`query($x: Int!, $y: [In!]!) { req(x: $x, y: $y) }`,
+	`query($n: Int, $m: Int) { foos(first: $n, last: $m) { edges { node } pageInfo { hasNextPage hasPreviousPage } } a: foos(first: 1, last: -1) { edges { node } pageInfo { hasNextPage } } b: foos(last: -2) { pageInfo { hasPreviousPage } } c: foos(first: -1) { edges { cursor } } d: foos(first: 0, last: -3) { pageInfo { endCursor } } e: foos(first: 2, after: "x", before: "") { edges { cursor } } }`,
+	`subscription($v: Boolean = true) { tick @skip(if: $v) }`,
+	`subscription { ... @include(if: false) { tick } }`,
+	`subscription S($w: Boolean = false) { ...F @include(if: $w) } fragment F on Subscription { obj { int } }`,
+	`subscription { tick @skip(if: true) obj @skip(if: true) { int } }`,
 	`{ goInt a: goInt obj { goInt b: goInt obj { goInt } } dt }`,
 	`mutation { goInt a: goInt obj { goInt } b: goInt }`,
 	`subscription { obj { goInt int a: goInt dt } }`,
